@@ -378,3 +378,148 @@ Proof.
   - apply Rcompare_Eq_inv.
   - apply Rcompare_Eq.
 Qed.
+
+(** * totality: the operations return a value when the result is of moderate size *)
+Lemma in_i128_abs z : Z.abs z <= i128_max -> in_i128 z = true.
+Proof.
+  intros H. unfold in_i128. change i128_min with (- (i128_max + 1)).
+  apply andb_true_iff. split; apply Z.leb_le; lia.
+Qed.
+
+Lemma round_quot_total q r d : i128_min - 1 <= q < i128_max -> exists z, round_quot q r d = Ok z.
+Proof.
+  intros H. unfold round_quot. destruct (r =? 0); [eexists; reflexivity|].
+  destruct (_ || _); [|eexists; reflexivity]. unfold ovf.
+  assert (E : in_i128 (q + 1) = true) by (unfold in_i128; apply andb_true_iff; split; apply Z.leb_le; lia).
+  rewrite E. eexists; reflexivity.
+Qed.
+
+Lemma div_abs_bound n d : 0 < d -> - Z.abs n <= n / d <= Z.abs n / d.
+Proof.
+  intros Hd. destruct (Z.le_gt_cases 0 n) as [Hn|Hn].
+  - rewrite (Z.abs_eq n) by exact Hn. split; [|reflexivity]. pose proof (Z.div_pos n d Hn Hd). lia.
+  - rewrite (Z.abs_neq n) by lia. split.
+    + rewrite Z.opp_involutive. apply (Z.div_le_lower_bound n d n Hd). nia.
+    + apply Z.le_trans with 0; [apply Z.lt_le_incl, Z.div_lt_upper_bound; lia|apply Z.div_pos; lia].
+Qed.
+
+Lemma i128_div_rounded_total n d : d <> 0 -> Z.abs n <= i128_max -> Z.abs d <= i128_max ->
+  Z.abs n / Z.abs d < i128_max -> exists z, i128_div_rounded n d = Ok z.
+Proof.
+  intros Hd Hn Hdm Hq. unfold i128_div_rounded. destruct (Z.eqb_spec d 0); [contradiction|].
+  unfold flip_signs, ovf. change i128_min with (- (i128_max + 1)).
+  destruct (Z.ltb_spec d 0) as [Ed|Ed].
+  - rewrite (in_i128_abs (- n)) by (rewrite Z.abs_opp; exact Hn). rewrite (in_i128_abs (- d)) by (rewrite Z.abs_opp; exact Hdm). cbn [bind].
+    apply round_quot_total. change i128_min with (- (i128_max + 1)).
+    pose proof (div_abs_bound (- n) (- d) ltac:(lia)) as B. rewrite Z.abs_opp in B. rewrite (Z.abs_neq d) in Hq by lia. lia.
+  - cbn [bind]. apply round_quot_total. change i128_min with (- (i128_max + 1)).
+    pose proof (div_abs_bound n d ltac:(lia)) as B. rewrite (Z.abs_eq d) in Hq by lia. lia.
+Qed.
+
+Lemma shifted_div_total n p d : d <> 0 -> Z.abs n <= i128_max -> Z.abs d <= i128_max ->
+  Z.abs n * ten_pow p / Z.abs d < i128_max -> exists z, i128_shifted_div_rounded n p d = Ok z.
+Proof.
+  intros Hd Hn Hdm Hq. unfold i128_shifted_div_rounded. destruct (Z.eqb_spec d 0); [contradiction|].
+  assert (core : forall n' d', Z.abs n' = Z.abs n -> d' = Z.abs d ->
+     exists z, (let m := Z.abs n' * ten_pow p in
+       if m / d' >? i128_max then Panic PAmount
+       else if n' <? 0 then round_quot (- (m / d') - 1) (d' - m mod d') d' else round_quot (m / d') (m mod d') d') = Ok z).
+  { intros n' d' En ->. cbv zeta. rewrite En. set (aq := Z.abs n * ten_pow p / Z.abs d) in *.
+    assert (0 <= aq).
+    { unfold aq. apply Z.div_pos; [|lia]. unfold ten_pow. pose proof (Z.pow_nonneg 10 p ltac:(lia)). nia. }
+    destruct (Z.gtb_spec aq i128_max); [lia|].
+    destruct (n' <? 0); apply round_quot_total; change i128_min with (- (i128_max + 1)); lia. }
+  unfold flip_signs, ovf. destruct (Z.ltb_spec d 0) as [Ed|Ed].
+  - rewrite (in_i128_abs (- n)) by (rewrite Z.abs_opp; exact Hn). rewrite (in_i128_abs (- d)) by (rewrite Z.abs_opp; exact Hdm). cbn [bind].
+    apply core; [apply Z.abs_opp|rewrite Z.abs_neq; lia].
+  - cbn [bind]. apply core; [reflexivity|rewrite Z.abs_eq; lia].
+Qed.
+
+Lemma ten_pow_mono a b : 0 <= a <= b -> ten_pow a <= ten_pow b.
+Proof. intros H. unfold ten_pow. apply Z.pow_le_mono_r; lia. Qed.
+
+Theorem dec_addsub_total op x y : dec_ok x -> dec_ok y ->
+  (forall a b, Z.abs (op a b) <= Z.abs a + Z.abs b) ->
+  Z.abs (d_coeff x) * ten_pow (18 - d_nfd x) + Z.abs (d_coeff y) * ten_pow (18 - d_nfd y) <= i128_max ->
+  exists z, dec_addsub op x y = Ok z.
+Proof.
+  unfold dec_ok. intros Hx Hy Hop Hb. unfold dec_addsub, mul_pow_ten, ovf.
+  pose proof (ten_pow_pos (18 - d_nfd x) ltac:(lia)) as Px. pose proof (ten_pow_pos (18 - d_nfd y) ltac:(lia)) as Py.
+  assert (Hcx : Z.abs (d_coeff x) <= Z.abs (d_coeff x) * ten_pow (18 - d_nfd x)) by nia.
+  assert (Hcy : Z.abs (d_coeff y) <= Z.abs (d_coeff y) * ten_pow (18 - d_nfd y)) by nia.
+  destruct (Z.compare_spec (d_nfd x) (d_nfd y)) as [E|E|E].
+  - rewrite in_i128_abs by (pose proof (Hop (d_coeff x) (d_coeff y)); lia). cbn [bind]. eexists; reflexivity.
+  - assert (Ht : Z.abs (d_coeff x * ten_pow (d_nfd y - d_nfd x)) <= Z.abs (d_coeff x) * ten_pow (18 - d_nfd x)).
+    { rewrite Z.abs_mul, (Z.abs_eq (ten_pow _)) by (apply Z.lt_le_incl, ten_pow_pos; lia).
+      apply Z.mul_le_mono_nonneg_l; [lia|apply ten_pow_mono; lia]. }
+    rewrite in_i128_abs by lia. cbn [bind].
+    rewrite in_i128_abs by (pose proof (Hop (d_coeff x * ten_pow (d_nfd y - d_nfd x)) (d_coeff y)); lia). cbn [bind]. eexists; reflexivity.
+  - assert (Ht : Z.abs (d_coeff y * ten_pow (d_nfd x - d_nfd y)) <= Z.abs (d_coeff y) * ten_pow (18 - d_nfd y)).
+    { rewrite Z.abs_mul, (Z.abs_eq (ten_pow _)) by (apply Z.lt_le_incl, ten_pow_pos; lia).
+      apply Z.mul_le_mono_nonneg_l; [lia|apply ten_pow_mono; lia]. }
+    rewrite in_i128_abs by lia. cbn [bind].
+    rewrite in_i128_abs by (pose proof (Hop (d_coeff x) (d_coeff y * ten_pow (d_nfd x - d_nfd y))); lia). cbn [bind]. eexists; reflexivity.
+Qed.
+
+Theorem dec_mul_total x y : dec_ok x -> dec_ok y ->
+  Z.abs (d_coeff x * d_coeff y) / ten_pow (Z.max 0 (d_nfd x + d_nfd y - 18)) < i128_max ->
+  exists z, dec_mul x y = Ok z.
+Proof.
+  unfold dec_ok. intros Hx Hy Hb. unfold dec_mul.
+  destruct (_ || _); [eexists; reflexivity|]. destruct (dec_eq_one y); [eexists; reflexivity|]. destruct (dec_eq_one x); [eexists; reflexivity|].
+  unfold checked_mul_rounded, max_nfd. destruct (Z.geb_spec 18 (d_nfd x + d_nfd y)) as [E|E].
+  - rewrite Z.max_l in Hb by lia. change (ten_pow 0) with 1 in Hb. rewrite Z.div_1_r in Hb.
+    unfold chk. rewrite in_i128_abs by lia. eexists; reflexivity.
+  - rewrite Z.max_r in Hb by lia. set (k := d_nfd x + d_nfd y - 18) in *. assert (Hk : 1 <= k) by (unfold k; lia).
+    pose proof (ten_pow_pos k ltac:(lia)) as Pk.
+    assert (P10 : 10 <= ten_pow k) by (change 10 with (ten_pow 1); apply ten_pow_mono; lia).
+    unfold chk. destruct (in_i128 (d_coeff x * d_coeff y)) eqn:Ei.
+    + assert (exists r, i128_div_rounded (d_coeff x * d_coeff y) (ten_pow k) = Ok r) as [r ->]; [|cbn [bind]; eexists; reflexivity].
+      unfold i128_div_rounded, flip_signs. destruct (Z.eqb_spec (ten_pow k) 0); [lia|]. destruct (Z.ltb_spec (ten_pow k) 0); [lia|]. cbn [bind].
+      apply round_quot_total. unfold in_i128 in Ei. apply andb_true_iff in Ei as [E1 E2]. apply Z.leb_le in E1, E2.
+      set (c := d_coeff x * d_coeff y) in *. change i128_min with (- (i128_max + 1)) in *. assert (0 < i128_max) by reflexivity.
+      pose proof (div_abs_bound c (ten_pow k) Pk) as B.
+      assert (Z.abs c / ten_pow k <= Z.abs c / 10) by (apply Z.div_le_compat_l; lia).
+      assert (Z.abs c / 10 < i128_max) by (apply Z.div_lt_upper_bound; lia). lia.
+    + assert (exists r, i128_mul_div_ten_pow_rounded (d_coeff x) (d_coeff y) k = Ok r) as [r ->]; [|cbn [bind]; eexists; reflexivity].
+      unfold i128_mul_div_ten_pow_rounded. rewrite <- Z.abs_mul. set (aq := Z.abs (d_coeff x * d_coeff y) / ten_pow k) in *.
+      assert (0 <= aq) by (apply Z.div_pos; lia).
+      destruct (Z.gtb_spec aq i128_max); [lia|].
+      destruct (negb _); apply round_quot_total; change i128_min with (- (i128_max + 1)); lia.
+Qed.
+
+Theorem dec_div_total x y : dec_ok x -> dec_ok y ->
+  Z.abs (d_coeff x) <= i128_max -> Z.abs (d_coeff y) <= i128_max -> d_coeff y <> 0 ->
+  Z.abs (d_coeff x) * ten_pow (18 + d_nfd y - d_nfd x) / Z.abs (d_coeff y) < i128_max ->
+  exists z, dec_div x y = Ok z.
+Proof.
+  unfold dec_ok. intros Hx Hy Bx By Hy0 Hq. unfold dec_div, dec_eq_zero.
+  destruct (Z.eqb_spec (d_coeff y) 0); [contradiction|].
+  destruct (d_coeff x =? 0); [eexists; reflexivity|]. destruct (dec_eq_one y); [eexists; reflexivity|].
+  assert (exists c, checked_div_rounded (d_coeff x) (d_nfd x) (d_coeff y) (d_nfd y) max_nfd = Ok c) as [c ->]; [|cbn [bind]; eexists; reflexivity].
+  unfold checked_div_rounded, max_nfd. set (s := 18 + d_nfd y - d_nfd x) in *.
+  destruct (Z.compare_spec (d_nfd x) (18 + d_nfd y)) as [E|E|E].
+  - replace s with 0 in Hq by (unfold s; lia). change (ten_pow 0) with 1 in Hq. rewrite Z.mul_1_r in Hq.
+    apply i128_div_rounded_total; assumption.
+  - assert (Hs : 1 <= s) by (unfold s; lia). unfold checked_mul_pow_ten, chk.
+    destruct (s >? 38); [apply shifted_div_total; assumption|].
+    destruct (in_i128 (d_coeff x * ten_pow s)) eqn:Ei; [|apply shifted_div_total; assumption].
+    apply i128_div_rounded_total; [exact Hy0| |exact By|rewrite Z.abs_mul, (Z.abs_eq (ten_pow s)) by (apply Z.lt_le_incl, ten_pow_pos; lia); exact Hq].
+    unfold in_i128 in Ei. apply andb_true_iff in Ei as [E1 E2]. apply Z.leb_le in E1, E2.
+    assert (Hm : (d_coeff x * ten_pow s) mod 10 = 0).
+    { replace s with (1 + (s - 1)) by ring. rewrite ten_pow_add by lia. change (ten_pow 1) with 10.
+      rewrite Z.mul_assoc, (Z.mul_comm _ 10), <- Z.mul_assoc, Z.mul_comm. apply Z.mod_mul. lia. }
+    set (w := d_coeff x * ten_pow s) in *. clearbody w.
+    assert (w <> i128_min) by (intros ->; vm_compute in Hm; discriminate).
+    change i128_min with (- (i128_max + 1)) in *. lia.
+  - exfalso. lia.
+Qed.
+
+(** * the negations are harmless on moderate values *)
+Lemma dec_neg_val x : dec_ok x -> dval (dec_neg x) = (- dval x)%R.
+Proof. intros _. unfold dval, dec_neg. cbn [d_coeff d_nfd]. rewrite opp_IZR. unfold Rdiv. ring. Qed.
+Lemma dec_abs_val x : dec_ok x -> dval (dec_abs x) = Rabs (dval x).
+Proof.
+  intros Hx. unfold dval, dec_abs. cbn [d_coeff d_nfd]. rewrite abs_IZR. unfold Rdiv.
+  rewrite Rabs_mult, (Rabs_pos_eq (/ _)); [reflexivity|]. apply Rlt_le, Rinv_0_lt_compat, IZR_ten_pow_pos. apply Hx.
+Qed.
